@@ -16,10 +16,10 @@ Proof.
 Qed.
 
 Section Facts.
-  Variable ci mi : bool.
+  Variable ci cs mi ms : bool.
   Variable j1 j2 : Z.
 
-  Notation step := (cstep ci mi j1 j2).
+  Notation step := (cstep ci cs mi ms j1 j2).
 
   Lemma getobj_putobj_other st o o' x : o' <> o -> getobj (putobj st o x) o' = getobj st o'.
   Proof.
@@ -62,7 +62,7 @@ Section Facts.
   (* the objects a command may change *)
   Definition targets (c : ccmd) : list nat :=
     match c with
-    | CAppend o _ _ | CAddFilter o _ _ | CEnqueue o _ _ | CProcess o | CDestroy o => [o]
+    | CAppend o _ _ | CAddFilter o _ _ | CEnqueue o _ _ | CProcess o | CDestroy o | CGuardBegin o _ | CGuardEnd o _ => [o]
     | CDispatch _ _ _ | CEmptyQ _ | CCanProcess _ => []
     | CNew d | CCopyCtor _ d | CCopyAssign _ d => [d]
     | CMoveCtor s d | CMoveAssign s d => [s; d]
@@ -96,7 +96,7 @@ Section Facts.
     intros Hx H. simpl in H. rewrite Hx in H.
     destruct (nth_error (objs st) d) as [[?|]|] eqn:Ed; try discriminate. inversion H; subst. clear H.
     assert (Hne : s <> d). { intro E; subst. unfold getobj in Hx. rewrite Ed in Hx. discriminate. }
-    exists (copy_of ci j1 j2 x). repeat split; auto.
+    exists (copy_of ci cs j1 j2 x). repeat split; auto.
     - unfold getobj, putobj; simpl. rewrite nth_error_oset, Nat.eqb_refl.
       assert (d < length (objs st)) by (apply nth_error_Some; rewrite Ed; discriminate).
       destruct (Nat.ltb_spec d (length (objs st))); [reflexivity|lia].
@@ -112,7 +112,7 @@ Section Facts.
     intros Hx H. simpl in H. rewrite Hx in H.
     destruct (nth_error (objs st) d) as [[?|]|] eqn:Ed; try discriminate. inversion H; subst. clear H.
     assert (Hne : s <> d). { intro E; subst. unfold getobj in Hx. rewrite Ed in Hx. discriminate. }
-    exists (moved_into mi j1 j2 x), (moved_from x). repeat split; auto.
+    exists (moved_into mi ms j1 j2 x), (moved_from x). repeat split; auto.
     - rewrite getobj_putobj_other by (intro E; apply Hne; auto).
       unfold getobj, putobj; simpl. rewrite nth_error_oset, Nat.eqb_refl.
       assert (d < length (objs st)) by (apply nth_error_Some; rewrite Ed; discriminate).
@@ -153,19 +153,20 @@ End Facts.
 
 (* nothing depends on what the storage held: with constructors that initialise the counters the
    whole run is the same function of the program for every previous content *)
-Theorem junk_independent (a b a' b' : Z) n cs :
-  c_run_case true true a b n cs = c_run_case true true a' b' n cs.
+Theorem junk_independent (cs ms : bool) (a b a' b' : Z) n prog :
+  c_run_case true cs true ms a b n prog = c_run_case true cs true ms a' b' n prog.
 Proof.
-  unfold c_run_case. generalize (cinit n). induction cs as [|c r IH]; intros st; simpl; [reflexivity|].
-  assert (E : cstep true true a b st c = cstep true true a' b' st c) by (destruct c; reflexivity).
-  rewrite E. destruct (cstep true true a' b' st c); [apply IH|reflexivity].
+  unfold c_run_case. generalize (cinit n). induction prog as [|c r IH]; intros st; simpl; [reflexivity|].
+  assert (E : cstep true cs true ms a b st c = cstep true cs true ms a' b' st c) by (destruct c; reflexivity).
+  rewrite E. destruct (cstep true cs true ms a' b' st c); [apply IH|reflexivity].
 Qed.
 
-(* a queue obtained by copy or move construction behaves like a fresh one: it reports empty until
-   something is enqueued into it, and then waiting/notification sees the event *)
+(* a queue obtained by copy or move construction behaves like a fresh one WHATEVER is in flight
+   on its source (any counter values there): it reports empty until something is enqueued into
+   it, and then waiting/notification sees the event *)
 Theorem constructed_queue_is_fresh (a b : Z) (x : cobj) :
-  let y := copy_of true a b x in
-  let z := moved_into true a b x in
+  let y := copy_of true false a b x in
+  let z := moved_into true false a b x in
   GenQ.empty_queue (is_nil (opending y)) (oecnt y) = true /\
   GenQ.empty_queue (is_nil (opending z)) (oecnt z) = true /\
   (forall e, GenQ.can_process (is_nil (opending y ++ [e])) (oecnt y) (oncnt y) = true) /\
@@ -175,5 +176,16 @@ Proof. simpl. repeat split; reflexivity. Qed.
 (* regression witness for the repaired defect (0cf92d0): constructors that leave the counters
    to the storage's previous content make a never-used queue report non-empty *)
 Theorem uninitialised_counters_refuted :
-  exists junk x, GenQ.empty_queue (is_nil (opending (copy_of false junk junk x))) (oecnt (copy_of false junk junk x)) = false.
+  exists junk x, GenQ.empty_queue (is_nil (opending (copy_of false false junk junk x))) (oecnt (copy_of false false junk junk x)) = false.
 Proof. exists (-1414812757)%Z, fresh_obj. reflexivity. Qed.
+
+(* a copy constructor that takes the counters over from its source is wrong as well: a copy made
+   while a DisableQueueNotify is alive on the source never announces its own events, a copy made
+   while the source is processing never reports empty *)
+Theorem counters_copied_from_source_refuted :
+  exists x, (forall e, GenQ.can_process (is_nil (opending (copy_of true true 0 0 x) ++ [e])) (oecnt (copy_of true true 0 0 x)) (oncnt (copy_of true true 0 0 x)) = false) /\
+            exists x', GenQ.empty_queue (is_nil (opending (copy_of true true 0 0 x'))) (oecnt (copy_of true true 0 0 x')) = false.
+Proof.
+  exists (mkObj [] [] [] 0 1). split; [intros e; reflexivity|].
+  exists (mkObj [] [] [] 1 0). reflexivity.
+Qed.
